@@ -15,6 +15,7 @@ type TV struct {
 	T  string
 	Ty types.Type
 	M  *SliceMeta // optional memory-layout facts for []byte values
+	Shrunk bool   // a non-byte slice value obtained by s[lo:hi]: it shares s's backing array and has spare capacity
 }
 
 // SliceMeta describes where a []byte value lives (used for frame obligations).
